@@ -28,6 +28,7 @@ def corpus(tier, rng):
     specs += sample(hwfamily.gen_hw, rng, 2 if q else 20) + hwfamily.flatten_core()
     specs += sample(families.gen_occ, rng, 2 if q else 20) + sample(families.gen_shape, rng, 1 if q else 20) + sample(families.gen_flat, rng, 1 if q else 15)
     specs += sample(families.gen_cascade, rng, 1 if q else 15) + sample(families.gen_flat3, rng, 3 if q else 12)
+    specs += [sp for sp in families.conv_systematic("quick") if sp["family"] == "conv-other-rank" and "follow(Q)" in sp["yaml"]][:: 3 if q else 1]
     specs += families.flat_split_core()[:: 3 if q else 1] + families.double_flat_core()[:: 2 if q else 1]       # independent split + flatten: the order of un-partitioning follows a set's iteration order
     return specs
 
